@@ -7,6 +7,7 @@ package main
 // from the recorded events (oracle.go).
 
 import (
+	"bufio"
 	"encoding/json"
 	"errors"
 	"fmt"
@@ -14,11 +15,10 @@ import (
 	"net"
 	"os"
 	"runtime"
+	"runtime/debug"
 	"sync"
 	"sync/atomic"
 	"time"
-
-	"verifh/common"
 
 	"github.com/DistCompiler/pgo/distsys"
 	"github.com/DistCompiler/pgo/distsys/resources"
@@ -28,18 +28,24 @@ import (
 
 // Faults are per-request probabilities applied by the harness transport wrapper.
 type Faults struct {
-	Delay      float64 `json:"delay"`       // sleep before forwarding
+	Delay      float64 `json:"delay"`        // sleep before forwarding
 	MaxDelayUs int     `json:"max_delay_us"` // upper bound of a delay
-	Reorder    float64 `json:"reorder"`     // hold until a later request on the same link was forwarded
-	Dup        float64 `json:"dup"`         // forward twice
-	Drop       float64 `json:"drop"`        // do not deliver, return an error
-	Timeout    float64 `json:"timeout"`     // deliver, but report an error to the caller (response lost / late)
+	Reorder    float64 `json:"reorder"`      // hold until a later request on the same link was forwarded
+	Dup        float64 `json:"dup"`          // forward twice
+	Drop       float64 `json:"drop"`         // do not deliver, return an error
+	Timeout    float64 `json:"timeout"`      // deliver, but report an error to the caller (response lost / late)
+	// HoldAbort: probability that an Abort is held until a later request on the same link was forwarded (the
+	// proposer's next PreCommit overtakes its own Abort), with a long fallback.
+	HoldAbort float64 `json:"hold_abort"`
+	// HoldCommit: probability that a Commit is held until a later request on the same link was forwarded (the
+	// proposer's next PreCommit or Abort overtakes its Commit), with a long fallback.
+	HoldCommit float64 `json:"hold_commit"`
 	// ErrBudget caps injected errors on Commit/Abort requests (each costs the code's own 1 s retry sleep).
 	ErrBudget int `json:"err_budget"`
 }
 
 func (f Faults) any() bool {
-	return f.Delay > 0 || f.Reorder > 0 || f.Dup > 0 || f.Drop > 0 || f.Timeout > 0
+	return f.Delay > 0 || f.Reorder > 0 || f.Dup > 0 || f.Drop > 0 || f.Timeout > 0 || f.HoldAbort > 0 || f.HoldCommit > 0
 }
 
 // Case is one generated run.
@@ -58,8 +64,8 @@ type Case struct {
 	Race      bool    `json:"race"`      // light instrumentation: no hooks, no transport wrapper
 	Procs     int     `json:"procs"`     // GOMAXPROCS of the child
 	// bounds (counts)
-	MaxPreCommits int `json:"max_precommits"`
-	DeadlineS     int `json:"deadline_s"` // internal watchdog (inconclusive)
+	MaxProposals int `json:"max_proposals"` // bound on proposals actually broadcast (PreCommit requests / (N-1))
+	DeadlineS    int `json:"deadline_s"`    // internal watchdog (inconclusive)
 }
 
 func (c Case) sig() string {
@@ -67,7 +73,7 @@ func (c Case) sig() string {
 	for _, p := range []struct {
 		n string
 		v float64
-	}{{"delay", c.Faults.Delay}, {"reorder", c.Faults.Reorder}, {"dup", c.Faults.Dup}, {"drop", c.Faults.Drop}, {"timeout", c.Faults.Timeout}} {
+	}{{"delay", c.Faults.Delay}, {"holdabort", c.Faults.HoldAbort}, {"holdcommit", c.Faults.HoldCommit}, {"reorder", c.Faults.Reorder}, {"dup", c.Faults.Dup}, {"drop", c.Faults.Drop}, {"timeout", c.Faults.Timeout}} {
 		if p.v > 0 {
 			f += p.n + ","
 		}
@@ -79,17 +85,20 @@ func (c Case) sig() string {
 
 type cluster struct {
 	c     Case
-	log   *common.JSONLWriter
+	log   *evLog
 	mu    sync.Mutex // taken together with the log's sequence counter for harness-side shared state
 	seq   int64      // logical clock for call/return stamps (same order as log records)
 	nodes []*cnode
 
-	sent    atomic.Int64 // wrapper: requests forwarded to the underlying handle (monotone)
-	pending atomic.Int64 // wrapper: requests (and asynchronous copies) accepted from a proposer and not yet finished
-	injErrors      atomic.Int64 // errors returned by the wrapper
-	errBudget      atomic.Int64
-	faultCounts    sync.Map // kind -> *atomic.Int64
-	faultsOn       atomic.Bool
+	sent          atomic.Int64 // wrapper: requests forwarded to the underlying handle (monotone)
+	pending       atomic.Int64 // wrapper: requests (and asynchronous copies) accepted from a proposer and not yet finished
+	preCommitMsgs atomic.Int64 // wrapper: PreCommit requests forwarded (a proposal sends N-1 of them)
+	injErrors     atomic.Int64 // errors returned by the wrapper
+	errBudget     atomic.Int64
+	tracker       holdTracker
+	violationAt   atomic.Int64 // PreCommit messages forwarded when the per-message rule was first seen broken (-1: never)
+	faultCounts   sync.Map     // kind -> *atomic.Int64
+	faultsOn      atomic.Bool
 }
 
 type cnode struct {
@@ -123,6 +132,54 @@ func (cl *cluster) emit(rec map[string]any) {
 	cl.log.Emit(rec)
 }
 
+// evLog is a JSON-lines writer like common.JSONLWriter, plus Flush: the code under test may panic in a goroutine
+// nobody can recover, and the events leading there are the witness.
+type evLog struct {
+	f   *os.File
+	w   *bufio.Writer
+	seq int64
+}
+
+func newEvLog(path string) *evLog {
+	f, err := os.Create(path)
+	if err != nil {
+		panic(err)
+	}
+	return &evLog{f: f, w: bufio.NewWriterSize(f, 1<<16)}
+}
+
+func (l *evLog) Emit(rec map[string]any) {
+	l.seq++
+	rec["seq"] = l.seq
+	buf, err := json.Marshal(rec)
+	if err != nil {
+		buf = []byte(fmt.Sprintf(`{"seq":%d,"k":"encode-error","what":%q}`, l.seq, err.Error()))
+	}
+	l.w.Write(buf)
+	l.w.WriteByte('\n')
+}
+func (l *evLog) Flush() { l.w.Flush() }
+func (l *evLog) Close() { l.w.Flush(); l.f.Close() }
+
+func (cl *cluster) flush() {
+	cl.mu.Lock()
+	if cl.log != nil {
+		cl.log.Flush()
+	}
+	cl.mu.Unlock()
+}
+
+// finish writes the trailing record and ends the process.
+func (cl *cluster) finish() {
+	cl.mu.Lock()
+	if cl.log != nil {
+		cl.log.Emit(map[string]any{"kind": "end"})
+		cl.log.Close()
+		cl.log = nil
+	}
+	os.Exit(0)
+}
+
 func (cl *cluster) countFault(kind string) {
 	v, _ := cl.faultCounts.LoadOrStore(kind, new(atomic.Int64))
 	v.(*atomic.Int64).Add(1)
@@ -135,8 +192,17 @@ func vstr(v tla.Value) any {
 	return v.String()
 }
 
+func accOf(a resources.VerifTwoPCAcceptor) *Acc {
+	out := &Acc{State: a.State, Ver: a.Version, Time: a.Time, CS: a.CS, Node: a.Node}
+	if a.Proposer != (tla.Value{}) {
+		s := a.Proposer.String()
+		out.Prop = &s
+	}
+	return out
+}
+
 func accJSON(a resources.VerifTwoPCAcceptor) map[string]any {
-	return map[string]any{"state": a.State, "prop": vstr(a.Proposer), "ver": a.Version, "cs": a.CS, "node": a.Node}
+	return map[string]any{"state": a.State, "prop": vstr(a.Proposer), "ver": a.Version, "time": a.Time, "cs": a.CS, "node": a.Node}
 }
 
 func (cl *cluster) installHooks() {
@@ -147,13 +213,19 @@ func (cl *cluster) installHooks() {
 				"valeq": value.Equal(reqValue)})
 		},
 		Request: func(replica tla.Value, req resources.TwoPCRequest, before, after resources.VerifTwoPCAcceptor, reply resources.TwoPCResponse, senderIdentical bool) {
+			eq := req.Sender.Equal(before.Proposer)
 			cl.emit(map[string]any{"k": "req", "r": vstr(replica), "t": req.RequestType.String(), "s": vstr(req.Sender), "v": req.Version,
 				"val": vstr(req.Value), "st": req.SenderTime, "b": accJSON(before), "a": accJSON(after),
-				"acc": reply.Accept, "rv": reply.Version, "same": senderIdentical, "eq": req.Sender.Equal(before.Proposer)})
-		},
-		Ignored: func(replica tla.Value, req resources.TwoPCRequest, lastSeen int64) {
-			cl.emit(map[string]any{"k": "ign", "r": vstr(replica), "t": req.RequestType.String(), "s": vstr(req.Sender), "v": req.Version,
-				"st": req.SenderTime, "last": lastSeen})
+				"acc": reply.Accept, "rv": reply.Version, "same": senderIdentical, "eq": eq})
+			// the same per-message rule the parent decides with, evaluated online only to cut a run short once
+			// its verdict is already "violated" (such a run is not expected to terminate)
+			ev := Event{K: "req", R: replica.String(), T: req.RequestType.String(), S: req.Sender.String(), V: req.Version, ST: req.SenderTime,
+				Acpt: reply.Accept, Eq: eq, B: accOf(before), A: accOf(after)}
+			cl.mu.Lock()
+			if cl.tracker.abortOwesRelease(&ev) && after.State != "initial" && cl.violationAt.Load() < 0 {
+				cl.violationAt.Store(cl.preCommitMsgs.Load())
+			}
+			cl.mu.Unlock()
 		},
 	}
 }
@@ -189,6 +261,9 @@ func (l *link) Close() error { return l.inner.Close() }
 
 func (l *link) forward(req resources.TwoPCRequest, reply *resources.TwoPCResponse) error {
 	l.cl.sent.Add(1)
+	if req.RequestType == resources.PreCommit {
+		l.cl.preCommitMsgs.Add(1)
+	}
 	err := <-l.inner.Send(req, reply)
 	// release held requests on this link: they now arrive after a later one
 	l.mu.Lock()
@@ -217,7 +292,29 @@ func (l *link) Send(req resources.TwoPCRequest, reply *resources.TwoPCResponse) 
 		delayUs = l.rng.Intn(f.MaxDelayUs)
 	}
 	coin := l.rng.Intn(2) == 0
+	hold := req.RequestType == resources.Abort && f.HoldAbort > 0 && l.rng.Float64() < f.HoldAbort
+	holdCommit := req.RequestType == resources.Commit && f.HoldCommit > 0 && l.rng.Float64() < f.HoldCommit
 	l.mu.Unlock()
+	if f.HoldAbort > 0 && req.RequestType == resources.Commit {
+		// widen the window between a won pre-commit and its commit reaching the replicas
+		l.cl.countFault("delay:Commit")
+		time.Sleep(time.Duration(4*delayUs) * time.Microsecond)
+		ch <- l.forward(req, reply)
+		return ch
+	}
+	if hold || holdCommit {
+		l.cl.countFault(map[bool]string{true: "holdabort:Abort", false: "holdcommit:Commit"}[hold])
+		w := make(chan struct{})
+		l.mu.Lock()
+		l.waiters = append(l.waiters, w)
+		l.mu.Unlock()
+		select {
+		case <-w:
+		case <-time.After(40 * time.Millisecond):
+		}
+		ch <- l.forward(req, reply)
+		return ch
+	}
 	errAllowed := func() bool {
 		if req.RequestType == resources.PreCommit {
 			return true
@@ -229,6 +326,7 @@ func (l *link) Send(req resources.TwoPCRequest, reply *resources.TwoPCResponse) 
 		if errAllowed() {
 			l.cl.countFault("drop:" + req.RequestType.String())
 			l.cl.injErrors.Add(1)
+			l.cl.emit(map[string]any{"k": "fault", "what": "drop", "r": vstr(nodeID(l.to)), "s": vstr(req.Sender), "t": req.RequestType.String(), "v": req.Version, "st": req.SenderTime})
 			ch <- errInjected
 			return ch
 		}
@@ -236,6 +334,7 @@ func (l *link) Send(req resources.TwoPCRequest, reply *resources.TwoPCResponse) 
 		if errAllowed() {
 			l.cl.countFault("timeout:" + req.RequestType.String())
 			l.cl.injErrors.Add(1)
+			l.cl.emit(map[string]any{"k": "fault", "what": "timeout", "r": vstr(nodeID(l.to)), "s": vstr(req.Sender), "t": req.RequestType.String(), "v": req.Version, "st": req.SenderTime})
 			if coin {
 				// delivered now, response lost
 				var lost resources.TwoPCResponse
@@ -353,12 +452,12 @@ func (cl *cluster) handlesFor(i int) []resources.ReplicaHandle {
 // pause (a resource is allowed to take time).
 
 type attempt struct {
-	call       int64
-	read       any // first value read before any own write
-	hasRead    bool
-	wrote      any
-	hasWrite   bool
-	preCommit  bool
+	call      int64
+	read      any // first value read before any own write
+	hasRead   bool
+	wrote     any
+	hasWrite  bool
+	preCommit bool
 }
 
 type probe struct {
@@ -370,7 +469,7 @@ type probe struct {
 	cur   *attempt
 
 	attempts, preCommits, commits, aborts, abortsAfterPreCommit atomic.Int64
-	onCommit                                              func()
+	onCommit                                                    func()
 }
 
 func (p *probe) touch() *attempt {
@@ -568,7 +667,6 @@ type snapNode struct {
 	Value    any    `json:"value"`
 	OldValue any    `json:"old_value"`
 	InFlight int    `json:"in_flight"`
-	STLen    int    `json:"sender_times_len"`
 	Writer   bool   `json:"writer"`
 	Done     bool   `json:"done"`
 	Attempts int64  `json:"attempts"`
@@ -582,6 +680,7 @@ type snapshot struct {
 	Sent     int64      `json:"sent"`
 	Pending  int64      `json:"pending"`
 	Errors   int64      `json:"errors"`
+	PreCMsgs int64      `json:"precommit_msgs"`
 }
 
 func (cl *cluster) snap() snapshot {
@@ -590,7 +689,7 @@ func (cl *cluster) snap() snapshot {
 	for _, n := range cl.nodes {
 		st := resources.VerifTwoPCSnapshotOf(n.rcvr)
 		sn := snapNode{ID: st.ID.String(), State: st.State, Prop: vstr(st.Proposer), Ver: st.Version, Node: st.Node, CS: st.CS,
-			Value: vstr(st.Value), OldValue: vstr(st.OldValue), InFlight: st.NumInFlightRequests, STLen: st.SenderTimesLen,
+			Value: vstr(st.Value), OldValue: vstr(st.OldValue), InFlight: st.NumInFlightRequests,
 			Writer: n.probe != nil, Done: n.done.Load()}
 		if n.probe != nil {
 			sn.Attempts, sn.PreC, sn.Commits, sn.Aborts = n.probe.attempts.Load(), n.probe.preCommits.Load(), n.probe.commits.Load(), n.probe.aborts.Load()
@@ -599,6 +698,7 @@ func (cl *cluster) snap() snapshot {
 	}
 	s.Pending = cl.pending.Load()
 	s.Errors = cl.injErrors.Load()
+	s.PreCMsgs = cl.preCommitMsgs.Load()
 	if s.Sent != cl.sent.Load() {
 		s.Pending = -1 // a request was forwarded while we were looking: not quiescent
 	}
@@ -648,8 +748,9 @@ func runChild() {
 	if c.Procs > 0 {
 		runtime.GOMAXPROCS(c.Procs)
 	}
-	cl := &cluster{c: c}
-	cl.log = common.NewJSONLWriter(os.Getenv("VERIF_C11_EVENTS"))
+	cl := &cluster{c: c, tracker: holdTracker{}}
+	cl.violationAt.Store(-1)
+	cl.log = newEvLog(os.Getenv("VERIF_C11_EVENTS"))
 	cl.errBudget.Store(int64(c.Faults.ErrBudget))
 	cl.faultsOn.Store(true)
 	if !c.Race {
@@ -662,10 +763,7 @@ func runChild() {
 		n.res = resources.NewTwoPC(initialValue(c.Workload), n.addr, cl.handlesFor(i), n.id, func(r *resources.TwoPCReceiver) { n.rcvr = r })
 		if c.Transport == "rpc" && !resources.VerifTwoPCListening(n.rcvr) {
 			cl.emit(map[string]any{"k": "setup-failed", "what": "listen " + n.addr})
-			cl.mu.Lock()
-			cl.log.Emit(map[string]any{"kind": "end"})
-			cl.log.Close()
-			os.Exit(0)
+			cl.finish()
 		}
 	}
 	wrng := rand.New(rand.NewSource(c.Seed*31 + 5))
@@ -690,6 +788,13 @@ func runChild() {
 		wg.Add(1)
 		go func() {
 			defer wg.Done()
+			defer func() {
+				if e := recover(); e != nil {
+					// a panic of the code under test on the archetype's goroutine: keep the complete log as witness
+					cl.emit(map[string]any{"k": "panic", "w": n.idx, "r": vstr(n.id), "what": fmt.Sprint(e), "stack": string(debug.Stack())})
+					cl.finish()
+				}
+			}()
 			n.err = n.ctx.Run()
 			n.done.Store(true)
 		}()
@@ -701,6 +806,7 @@ func runChild() {
 	deadline := time.After(time.Duration(c.DeadlineS) * time.Second)
 	tick := time.NewTicker(15 * time.Millisecond)
 	var cand *snapshot // first snapshot of a possible fixpoint
+	var violSnap map[int]int64
 loop:
 	for {
 		select {
@@ -712,21 +818,39 @@ loop:
 			break loop
 		case <-tick.C:
 		}
-		var pc int64
-		for _, n := range cl.nodes[:c.Writers] {
-			pc += n.probe.preCommits.Load()
-		}
-		if c.MaxPreCommits > 0 && pc > int64(c.MaxPreCommits) {
+		cl.flush()
+		if c.MaxProposals > 0 && c.N > 1 && cl.preCommitMsgs.Load()/int64(c.N-1) > int64(c.MaxProposals) {
 			reason = "bound"
 			break loop
+		}
+		if cl.violationAt.Load() >= 0 {
+			// the run already carries a violation of the per-message rule and is not expected to terminate; stop
+			// once every unfinished writer has completed a few further attempts (context for the witness)
+			if violSnap == nil {
+				violSnap = map[int]int64{}
+				for i, n := range cl.nodes[:c.Writers] {
+					violSnap[i] = n.probe.attempts.Load()
+				}
+			}
+			enough := true
+			for i, n := range cl.nodes[:c.Writers] {
+				if !n.done.Load() && n.probe.attempts.Load()-violSnap[i] < stuckAttempts {
+					enough = false
+				}
+			}
+			if enough {
+				reason = "stopped-after-violation"
+				break loop
+			}
 		}
 		if c.Race {
 			continue
 		}
-		// logical fixpoint: nothing in flight, no injected error ever (so no retry loop is sleeping), every
-		// unfinished writer completes further attempts, and not a single request is sent meanwhile.
+		// logical fixpoint: nothing in flight, no broadcast goroutine outstanding in any resource (retry loops
+		// after transport errors live inside those), every unfinished writer completes further attempts, and
+		// not a single request is sent meanwhile.
 		s := cl.snap()
-		if !s.quiet() || s.Errors != 0 {
+		if !s.quiet() {
 			cand = nil
 			continue
 		}
@@ -752,12 +876,25 @@ loop:
 		}
 	}
 	tick.Stop()
-	// heal the transport, let outstanding requests drain (bounded), then read the final state
+	// heal the transport; unless every writer finished by itself, ask the contexts to stop (they leave at their
+	// next loop head) and wait a bounded while; then let outstanding requests drain (bounded) and read the final
+	// state. "halted && quiet" = no archetype is running, nothing is in flight, no broadcast goroutine is left.
 	cl.faultsOn.Store(false)
+	halted := reason == "done"
+	if !halted {
+		for _, n := range cl.nodes[:c.Writers] {
+			go n.ctx.Stop()
+		}
+		select {
+		case <-allDone:
+			halted = true
+		case <-time.After(6 * time.Second):
+		}
+	}
 	var fin snapshot
-	for i := 0; i < 400; i++ {
+	for i := 0; i < 500; i++ {
 		fin = cl.snap()
-		if fin.quiet() || reason != "done" {
+		if fin.quiet() || !halted {
 			break
 		}
 		time.Sleep(10 * time.Millisecond)
@@ -770,11 +907,6 @@ loop:
 			runErrs = append(runErrs, n.err.Error())
 		}
 	}
-	cl.emit(map[string]any{"k": "final", "reason": reason, "quiet": fin.quiet(), "snap": fin, "faults": faults, "run_errors": runErrs})
-	cl.mu.Lock()
-	cl.log.Emit(map[string]any{"kind": "end"})
-	cl.log.Close()
-	cl.log = nil
-	cl.mu.Unlock()
-	os.Exit(0)
+	cl.emit(map[string]any{"k": "final", "reason": reason, "quiet": fin.quiet(), "halted": halted, "snap": fin, "faults": faults, "run_errors": runErrs})
+	cl.finish()
 }
